@@ -25,6 +25,7 @@ type thread struct {
 	fn        value
 	args      []value
 	noPreempt int
+	spawned   bool // started by a `go` statement of the code under test (not by the harness)
 }
 
 // envEvent is an environment transition (timer firing, context deadline) that may
@@ -165,6 +166,30 @@ func (th *thread) reschedule(exiting bool) {
 				evs = append(evs, e)
 			}
 		}
+		if r.cfg.BgLowPrio {
+			// sequential harness: goroutines started by the code under test and environment
+			// events (timers) run only when no harness thread can run
+			var fg []*thread
+			for _, t := range cands {
+				if !t.spawned {
+					fg = append(fg, t)
+				}
+			}
+			if len(fg) > 0 {
+				cands, evs = fg, nil
+			} else {
+				harnessLeft := false
+				for _, t := range r.threads {
+					if !t.spawned && !t.finished && !t.daemon {
+						harnessLeft = true
+					}
+				}
+				if !harnessLeft {
+					// every harness thread has finished: background activity is not explored further
+					cands, evs = nil, nil
+				}
+			}
+		}
 		selfEnabled := !exiting && th.enabled()
 		if len(cands) == 0 && len(evs) == 0 && len(r.quiesce) > 0 && !r.quiesceRan {
 			r.quiesceRan = true
@@ -186,12 +211,18 @@ func (th *thread) reschedule(exiting bool) {
 		if len(cands) == 0 && len(evs) == 0 {
 			// quiescence: finished, or deadlock
 			var stuck []*thread
+			harnessStuck := false
 			for _, t := range r.threads {
 				if !t.finished && !t.daemon {
 					stuck = append(stuck, t)
+					if !t.spawned {
+						harnessStuck = true
+					}
 				}
 			}
-			if len(stuck) > 0 {
+			// goroutines of the code under test that are still parked when every harness thread
+			// has finished are not a deadlock (the process would simply keep them parked)
+			if len(stuck) > 0 && harnessStuck {
 				msg := "deadlock: "
 				for _, t := range stuck {
 					msg += fmt.Sprintf("[%s blocked on %s] ", t.name, t.waitDesc)
@@ -254,9 +285,12 @@ func (th *thread) spawn(fn value, args []value, instr *ssa.Go) {
 		return // goroutines started by package init are ignored
 	}
 	nt := r.newThread("", fn, args)
+	nt.spawned = true
 	nt.vc = th.vc.fork(th, nt)
 	nt.start()
-	th.point("go " + nt.name)
+	if !r.cfg.BgLowPrio {
+		th.point("go " + nt.name)
+	}
 }
 
 // ---------- mutexes ----------
